@@ -101,7 +101,7 @@ def facts_dir(repo=REPO, verbose=False):
             return d
         shutil.rmtree(d, ignore_errors=True)
         os.makedirs(d)
-        target = os.path.join(CACHE, "target")
+        target = os.environ.get("SV_TARGET_DIR") or os.path.join(CACHE, "target")
         _clear_member_fingerprints(target)
         t0 = time.time()
         r = _run_driver(repo, d, target)
